@@ -156,6 +156,11 @@ def cases(tier):
     for b, o in (("1", "ico_42"), ("cube4D_2", "randomS_20"), ("1", "cube3D_26")):
         out.append({"b": b, "o": o, "t": "linspace(0.2, 0.5, 10)", "radii_nm": [str(F(2, 10) + F(3, 90) * i) for i in range(10)]})
         out.append({"b": b, "o": o, "t": "linspace(0.1, 0.2, 4)", "radii_nm": [str(F(1, 10) + F(1, 30) * i) for i in range(4)]})
+    # range() texts whose start is written with finer decimals than the step (and a default step of 1)
+    for b, o in (("1", "ico_3"), ("cube4D_3", "cube3D_2")):
+        out.append({"b": b, "o": o, "t": "range(0.25, 1.5, 0.5)", "radii_nm": ["0.25", "0.75", "1.25"]})
+        out.append({"b": b, "o": o, "t": "range(0.125, 0.6, 0.25)", "radii_nm": ["0.125", "0.375"]})
+        out.append({"b": b, "o": o, "t": "range(1.5, 4)", "radii_nm": ["1.5", "2.5", "3.5"]})
     # shells that nearly coincide (relative distance 3e-8 and 2e-6)
     for b, o in (("1", "ico_5"), ("cube4D_3", "cube3D_4"), ("randomQ_4", "1")):
         out.append({"b": b, "o": o, "t": "[0.3, 0.30000001, 0.5]", "radii_nm": ["0.3", "0.30000001", "0.5"]})
